@@ -296,7 +296,7 @@ func ruleC18GCMLayout(c *Ctx) {
 			if !ok {
 				continue
 			}
-			for _, fct := range normFact(Fact{iff.Cond, true}) {
+			for _, fct := range normFact(Fact{V: iff.Cond, True: true}) {
 				bo, isB := fct.V.(*ssa.BinOp)
 				if !isB || !(mentionsLen(bo.X) || mentionsLen(bo.Y)) {
 					continue
